@@ -8,7 +8,7 @@ every trailing incomplete frame `p` (strict prefix of the encoding of an admissi
 every list of chunks whose concatenation is `encodeAll ms ++ p` (= every way of splitting the byte stream
 between reads, down to one byte — or zero bytes — per read).
 -/
-import SwimVerif.Proofs.FrameSafety
+import SwimVerif.Proofs.FrameCommand
 
 set_option linter.unusedSimpArgs false
 namespace SwimVerif.Frames
@@ -122,6 +122,11 @@ has the wire form of `Unlinked(None)` and is excluded by `okRespMsg`. -/
 theorem C10_raw_response_split_insensitive : SplitInsensitive (Dec.ofParser rawResponse) encRespMsg okRespMsg :=
   C10_generic_split_insensitive (Lawful.ofParser rawResponse_lawful)
 
+/-- Ad hoc command messages: `RawCommandMessageDecoder` against `RawCommandMessageEncoder` — `Register` (since
+5ec6b4e), `Addressed`, `Registered`, with or without host; ids below 2^16, strings valid UTF-8. -/
+theorem C10_command_split_insensitive : SplitInsensitive rawCommand encCmd okCmd :=
+  C10_generic_split_insensitive rawCommand_lawful
+
 /-! ### corrupt tags and lengths -/
 
 /-- An unknown lane-request tag is an error (and exactly the tag byte is dropped). -/
@@ -216,18 +221,6 @@ theorem C10_command_register_split_regression :
       = [.register ⟨none, [110], [108]⟩ 7] := by
   decide
 
-/-! ### statements not proved (yet) -/
-
-/-- Ad hoc command messages (`RawCommandMessageDecoder`), `Register` included since 5ec6b4e. -/
-def C10_command_split_insensitive_open : Prop :=
-  SplitInsensitive rawCommand encCmd fun m =>
-    match m with
-    | .register a id => id < 65536 ∧ a.node.length < SZ ∧ a.lane.length < SZ ∧ utf8Valid a.node = true ∧
-        utf8Valid a.lane = true ∧ (∀ h, a.host = some h → h.length < SZ ∧ utf8Valid h = true)
-    | .addressed a b _ => okBytes b ∧ a.node.length < SZ ∧ a.lane.length < SZ ∧ utf8Valid a.node = true ∧
-        utf8Valid a.lane = true ∧ (∀ h, a.host = some h → h.length < SZ ∧ utf8Valid h = true)
-    | .registered t b _ => okBytes b ∧ t < 65536
-
 /-! ### side conditions on the generated table (re-checked against the sources on every run) -/
 
 /-- Tags that share a decoder are pairwise distinct. -/
@@ -283,5 +276,12 @@ example : (run (Dec.ofParser rawResponse)
     = [⟨be 16 7, [110], [108], .event [5]⟩] := by decide
 
 example : okBytes [1, 2, 3] := by simp [okBytes]
+
+example : okCmd (.register ⟨some [104], [110], [108]⟩ 7) :=
+  ⟨⟨by decide, by decide, by decide, by decide, by intro h e; cases e; exact ⟨by decide, by decide⟩⟩, by decide⟩
+
+/-- a `Register` with host, fed one byte at a time -/
+example : (run rawCommand ((encCmd (.register ⟨some [104], [110], [108]⟩ 7)).map fun b => [b])).items
+    = [.register ⟨some [104], [110], [108]⟩ 7] := by decide
 
 end SwimVerif.Frames
